@@ -257,6 +257,42 @@ pub fn run(tier: Tier) -> i32 {
         }
     }
 
+    // 5b. operands that are variables of the data segment and of the EEPROM: blocks placed with
+    //     .org and blocks that continue an earlier one, used by lds / sts / ldi low() high()
+    let mut n_data_labels = 0usize;
+    for (core, prefix, ram0) in [(Core::Full, "", 0x60i64), (Core::Reduced, REDUCED_PREFIX, 0x40)] {
+        for org in [ram0 + 0x10, ram0 + 0x21] {
+            for first in [1i64, 16, 3] {
+                for code_between in [0usize, 1, 3] {
+                    let a_buf = org;
+                    let a_flags = org + first;
+                    let a_last = a_flags + 2;
+                    let src = format!(
+                        "{}.dseg\n.org {}\nbuf_q: .byte {}\n.cseg\n{}.dseg\nflags_q: .byte 2\n.cseg\n{}.dseg\nlast_q: .byte 1\n{}.cseg\nlds r16, flags_q\nsts buf_q, r17\nlds r18, last_q\nldi r19, low(flags_q)\nldi r20, high(last_q)\nldi r21, ee_q\nldi r22, ee2_q\n",
+                        prefix, org, first, "nop\n".repeat(code_between), "nop\n".repeat(code_between),
+                        // (the reduced-core device has no EEPROM: constants stand in there)
+                        if core == Core::Full { ".eseg\n.org 5\nee_q: .db 1, 2\n.cseg\n.eseg\nee2_q: .db 3\n" } else { ".equ ee_q = 5\n.equ ee2_q = 7\n" }
+                    );
+                    let mut words: Vec<u16> = vec![0; 2 * code_between];
+                    let enc = |m: &str, o: &[Opnd]| isa::encode(core, m, o).unwrap_or_else(|| machinery_fail(&format!("data-label pass: reference rejects {} {:?}", m, o)));
+                    words.extend(enc("lds", &[Opnd::Reg(16), Opnd::Imm(a_flags)]));
+                    words.extend(enc("sts", &[Opnd::Imm(a_buf), Opnd::Reg(17)]));
+                    words.extend(enc("lds", &[Opnd::Reg(18), Opnd::Imm(a_last)]));
+                    words.extend(enc("ldi", &[Opnd::Reg(19), Opnd::Imm(a_flags & 0xff)]));
+                    words.extend(enc("ldi", &[Opnd::Reg(20), Opnd::Imm((a_last >> 8) & 0xff)]));
+                    words.extend(enc("ldi", &[Opnd::Reg(21), Opnd::Imm(5)]));
+                    words.extend(enc("ldi", &[Opnd::Reg(22), Opnd::Imm(7)]));
+                    let want = isa::words_to_bytes(&words);
+                    let o = sut::build_str(&src);
+                    n_data_labels += 1;
+                    stats.cases.fetch_add(1, Ordering::Relaxed);
+                    if !matches!(&o, Outcome::Ok(bu) if bu.code == want) {
+                        rep.violation(&format!("C01/data-label-operand/core={}", if core == Core::Full { "full" } else { "reduced" }), || format!("variables of a positioned and of a continued data block as operands: the code must be {} but {}", sut::hex(&want), o.brief()), || json!({"kind": "build_str", "source": src, "expected": {"result": "ok", "code": sut::hex(&want)}, "observed": o.to_json()}));
+                    }
+                }
+            }
+        }
+    }
     // 6. pc-relative operands directly behind in-code data: `pc` is the address of the
     //    instruction itself, whatever precedes it
     let mut n_pc_after_data = 0usize;
@@ -398,7 +434,7 @@ pub fn run(tier: Tier) -> i32 {
         "rule": "every legal operand tuple of every mnemonic (full core: all small spaces + lds/sts 32x2^16 + jmp/call 2^22; reduced core: lds/sts 16x128), packed 4096 per program and localised one-per-build on any mismatch; distinct_nontrivial = distinct reference encodings among the single-instruction cases (every case emits >= 1 word, so all are non-trivial)",
         "exhaustive": true,
         "space": {"small_full_core": n_small, "big_full_core": icase::BIG_TOTAL, "reduced_core": n_red,
-                  "adjacent_class_pairs": n_pairs, "adjacent_class_triples": n_triples, "mnemonic_classes": ncls, "label_operand_programs": n_label_programs, "pc_operand_after_data_programs": n_pc_after_data, "lines_of_the_large_symbolic_program": n_large,
+                  "adjacent_class_pairs": n_pairs, "adjacent_class_triples": n_triples, "mnemonic_classes": ncls, "label_operand_programs": n_label_programs, "data_label_operand_programs": n_data_labels, "pc_operand_after_data_programs": n_pc_after_data, "lines_of_the_large_symbolic_program": n_large,
                   "device_classes": n_dev_classes, "cases_under_a_selected_device": n_dev_cases.load(Ordering::Relaxed)},
         "batches": stats.batches.load(Ordering::Relaxed),
         "batches_localised_one_per_build": stats.localised.load(Ordering::Relaxed),
